@@ -3,21 +3,25 @@ import multiprocessing as mp
 import os
 
 
-def _init(paths):
+def _init(paths, env=None):
     import sys
     for p in paths:
         if p not in sys.path:
             sys.path.insert(0, p)
+    if env:
+        if any(m == "chuk_mcp" or m.startswith("chuk_mcp.") for m in sys.modules):
+            raise RuntimeError("chuk_mcp was imported before the worker environment could be set")
+        os.environ.update(env)
 
 
-def pmap(fn, items, jobs=16, chunksize=None):
+def pmap(fn, items, jobs=16, chunksize=None, env=None):
     items = list(items)
     if not items:
         return []
-    if len(items) < 8 or jobs <= 1:
+    if (len(items) < 8 or jobs <= 1) and not env:
         return [fn(x) for x in items]
     import sys
     ctx = mp.get_context("fork")
     cs = chunksize or max(1, len(items) // (jobs * 8))
-    with ctx.Pool(min(jobs, os.cpu_count() or 1), initializer=_init, initargs=(list(sys.path),)) as pool:
+    with ctx.Pool(min(jobs, os.cpu_count() or 1), initializer=_init, initargs=(list(sys.path), env)) as pool:
         return pool.map(fn, items, chunksize=cs)
